@@ -16,9 +16,6 @@ package controller
 // -- the clock: every reading is >= the previous one (both time packages).
 //@ ghost clock int
 
-//@ assume func time.Now() (t)
-//@   modifies clock
-//@   ensures clock >= old(clock) && t == clock
 //@ assume func time.Since(t) (d)
 //@   modifies clock
 //@   ensures clock >= old(clock) && d == sat64(clock - t)
